@@ -10,6 +10,9 @@
 //	         L -> <layout>         hook VerifC05Dump V -> t|f          hook VerifC05Verify
 //	         G n -> d              hook VerifC05MaxDegree (float maxDegree of a heap with n entries)
 //	a panic inside an op is the result PANIC, a hang (watchdog) is HANG and ends the process.
+//
+// Cases with a capacity above 300 (mode large) are refereed by the extracted specification only:
+// the driver skips the exact model / layout comparison for them (model_cap in ocaml/C05/driver.ml).
 package main
 
 import (
@@ -88,7 +91,7 @@ func watchdog(w *tr.W) {
 	}
 }
 
-func exec(w *tr.W, h heap.IndexedHeap[int, int], op string) {
+func exec(w *tr.W, h heap.IndexedHeap[int, int], op string) bool {
 	f := strings.Fields(op)
 	a := func(i int) int { v, _ := strconv.Atoi(f[i]); return v }
 	wmu.Lock()
@@ -144,13 +147,16 @@ func exec(w *tr.W, h heap.IndexedHeap[int, int], op string) {
 	inflight = ""
 	wmu.Unlock()
 	w.Op(op, res)
+	return res == "PANIC"
 }
 
 func runCase(w *tr.W, impl, ord string, cap int, ops []string) {
 	w.Begin("%s %s %d", impl, ord, cap)
 	h := mk(impl, ord, cap)
 	for _, op := range ops {
-		exec(w, h, op)
+		if exec(w, h, op) {
+			break // a panicking instance may be corrupted: stop using it, the case ends here
+		}
 	}
 	w.End()
 }
@@ -461,6 +467,129 @@ func thinning(w *tr.W, r *rng.R, cases int) {
 	}
 }
 
+// large: nearly full heaps of a few hundred to a few thousand entries under long runs dominated by
+// key-lowering ChangeKey (cuts thin the Fibonacci trees), with Delete / DeleteIndex followed by a
+// re-Insert of the freed index, so that consolidation meets many thinned roots of high degree.
+// A scratch indexed binary heap only tells which index a Delete frees.
+func large(w *tr.W, r *rng.R, caps []int, maxSteps int) {
+	for ci, cap := range caps {
+		ord := []string{"min", "max", "sub", "sub3", "rsub"}[(ci+r.Intn(5))%5]
+		sign := 1
+		if ord == "max" || ord == "rsub" {
+			sign = -1
+		}
+		nfill := cap * (80 + r.Intn(21)) / 100
+		if nfill < 1 {
+			nfill = 1
+		}
+		perm := make([]int, cap)
+		for i := range perm {
+			perm[i] = i
+		}
+		for i := cap - 1; i > 0; i-- {
+			j := r.Intn(i + 1)
+			perm[i], perm[j] = perm[j], perm[i]
+		}
+		held := perm[:nfill]
+		nk := make(map[int]int, nfill) // normalised key: smaller is closer to the root
+		scratch := mk("B", ord, cap)
+		alive := true
+		var ops []string
+		val := 0
+		low := 0
+		ins := func(i, k int) {
+			val++
+			nk[i] = k
+			ops = append(ops, fmt.Sprintf("I %d %d %d", i, sign*k, val))
+			if alive {
+				func() {
+					defer func() {
+						if recover() != nil {
+							alive = false
+						}
+					}()
+					scratch.Insert(i, sign*k, val)
+				}()
+			}
+		}
+		for _, i := range held {
+			ins(i, r.Range(1, 2000000))
+		}
+		steps := 30 * cap
+		if steps > maxSteps {
+			steps = maxSteps
+		}
+		if steps < 1500 {
+			steps = 1500
+		}
+		for s := 0; s < steps && alive; s++ {
+			x := r.Intn(100)
+			switch {
+			case x < 85: // lowering ChangeKey
+				i := held[r.Intn(len(held))]
+				k := nk[i] - r.Range(1, 1000)
+				if r.Chance(1, 3) {
+					k = low - 1
+				}
+				if k < low {
+					low = k
+				}
+				nk[i] = k
+				ops = append(ops, fmt.Sprintf("C %d %d", i, sign*k))
+				func() {
+					defer func() {
+						if recover() != nil {
+							alive = false
+						}
+					}()
+					scratch.ChangeKey(i, sign*k)
+				}()
+			case x < 95: // Delete, then re-Insert the freed index
+				freed, ok := -1, false
+				func() {
+					defer func() {
+						if recover() != nil {
+							alive = false
+						}
+					}()
+					freed, _, _, ok = scratch.Delete()
+				}()
+				ops = append(ops, "D")
+				if ok {
+					ins(freed, low+r.Range(1, 2000000))
+				}
+			default: // DeleteIndex, then re-Insert
+				i := held[r.Intn(len(held))]
+				ops = append(ops, fmt.Sprintf("X %d", i))
+				func() {
+					defer func() {
+						if recover() != nil {
+							alive = false
+						}
+					}()
+					scratch.DeleteIndex(i)
+				}()
+				ins(i, low+r.Range(1, 2000000))
+			}
+			if r.Chance(1, 40) {
+				i := held[r.Intn(len(held))]
+				ops = append(ops, "P", "S", fmt.Sprintf("Q %d", i), fmt.Sprintf("K %d", sign*nk[i]))
+			}
+		}
+		ops = append(ops, "V", "S", "E", "P", "L")
+		for i := -1; i <= cap+3; i += 1 + cap/64 {
+			ops = append(ops, fmt.Sprintf("H %d", i), fmt.Sprintf("Q %d", i))
+		}
+		for i := 0; i <= nfill; i++ { // drain (no layouts: they are large)
+			ops = append(ops, "D")
+		}
+		ops = append(ops, "S", "E", "P", "L")
+		for _, impl := range impls {
+			runCase(w, impl, ord, cap, ops)
+		}
+	}
+}
+
 // cascade: fill, one Delete (consolidation builds deep trees), then decrease keys / delete
 // indices of deep nodes so that marks, cascading cuts and promote/demote chains occur.
 func cascade(w *tr.W, r *rng.R, cases int) {
@@ -550,7 +679,7 @@ func maxdeg(w *tr.W, r *rng.R, dense, random int) {
 }
 
 func main() {
-	mode := flag.String("mode", "exhaustive", "exhaustive|random|cascade|maxdeg")
+	mode := flag.String("mode", "exhaustive", "exhaustive|random|cascade|large|maxdeg")
 	tier := flag.String("tier", "quick", "quick|thorough")
 	replay := flag.String("replay", "", "case file to re-execute")
 	flag.Parse()
@@ -595,6 +724,15 @@ func main() {
 			random(w, r, 40000, true)
 		} else {
 			random(w, r, 2500, true)
+		}
+	case "large":
+		// the streams of neighbouring VERIF_SEEDs are shifts of each other (SplitMix64 state = seed * gamma):
+		// reseed from one mixed output so that every seed gives an unrelated workload
+		r := rng.New(rng.FromEnv(50505).U64())
+		if thorough {
+			large(w, r, []int{15, 31, 63, 127, 255, 500, 1000, 2000, 15, 31, 63, 127, 255, 511, 1023}, 30000)
+		} else {
+			large(w, r, []int{15, 31, 63, 127, 255, 500, 1000, 15, 31, 63}, 20000)
 		}
 	case "maxdeg":
 		r := rng.FromEnv(555)
